@@ -86,6 +86,9 @@ func (w *World) loadContracts(repo string) error {
 	for pkg, dir := range dirs {
 		matches, _ := filepath.Glob(filepath.Join(repo, dir, "zz_*_verif.go"))
 		for _, file := range matches {
+			if _, dropped := droppedSpecFiles[file]; dropped {
+				continue
+			}
 			if err := w.loadContractFile(pkg, file); err != nil {
 				return err
 			}
